@@ -260,6 +260,11 @@ func endReturnsError(e *feEnd) (isErr, known bool) {
 		return true, true
 	case *ssa.Call:
 		if isErrorCtor(x) {
+			// Wrap/Wrapf(err, ..) is nil when err is nil: it only counts as an error
+			// when the wrapped value is known non-nil on this path
+			if isWrapCall(x) && !wrapAlwaysNonNil(x) {
+				return wrappedNonNil(e, x.Call.Args[0], 0)
+			}
 			return true, true
 		}
 	}
@@ -439,4 +444,91 @@ func equivLoads(fn *ssa.Function, tag ssa.Value) []ssa.Value {
 		}
 	}
 	return out
+}
+
+func isWrapCall(c *ssa.Call) bool {
+	fn := c.Common().StaticCallee()
+	if fn == nil || fn.Pkg == nil {
+		return false
+	}
+	return fn.Pkg.Pkg.Path() == "github.com/go-faster/errors" && (fn.Name() == "Wrap" || fn.Name() == "Wrapf")
+}
+
+// wrappedNonNil: is the wrapped error known non-nil (true,true), known nil (false,true) or unknown on this path?
+func wrappedNonNil(e *feEnd, w ssa.Value, depth int) (bool, bool) {
+	if depth > 4 {
+		return false, false
+	}
+	if e.State != nil {
+		if u, ok := w.(*ssa.UnOp); ok {
+			if lv, ok := e.State.loads[u]; ok && lv.V != nil {
+				w = lv.V
+			}
+		}
+		if phi, ok := w.(*ssa.Phi); ok {
+			if src, ok := e.State.phiSrc[phi]; ok {
+				w = src
+			}
+		}
+	}
+	if isNilConst(w) {
+		return false, true
+	}
+	switch x := stripTypeOnly(w).(type) {
+	case *ssa.Alloc:
+		return true, true
+	case *ssa.Call:
+		if isErrorCtor(x) {
+			if isWrapCall(x) && !wrapAlwaysNonNil(x) {
+				return wrappedNonNil(e, x.Call.Args[0], depth+1)
+			}
+			return true, true
+		}
+	}
+	if _, ok := w.(*ssa.MakeInterface); ok {
+		return true, true
+	}
+	if e.State != nil {
+		for _, f := range e.State.free {
+			if x, nn, ok := nilCheck(f.Cond); ok && x == w {
+				return nn == f.Truth, true
+			}
+		}
+	}
+	return false, false
+}
+
+var wrapSummary = map[*ssa.Function]bool{}
+
+// wrapAlwaysNonNil reads the wrap helper's own source (module cache): does every
+// return yield a freshly allocated, hence non-nil, error? (go-faster/errors.Wrap
+// does – unlike pkg/errors.Wrap it does not map nil to nil.)
+func wrapAlwaysNonNil(c *ssa.Call) bool {
+	fn := c.Common().StaticCallee()
+	if fn == nil {
+		return false
+	}
+	if v, ok := wrapSummary[fn]; ok {
+		return v
+	}
+	if fn.Blocks == nil && fn.Pkg != nil {
+		fn.Pkg.Build()
+	}
+	res := len(fn.Blocks) > 0
+	for _, ret := range returnsOf(fn) {
+		if len(ret.Results) != 1 {
+			res = false
+			continue
+		}
+		mi, ok := ret.Results[0].(*ssa.MakeInterface)
+		if !ok {
+			res = false
+			continue
+		}
+		if _, ok := mi.X.(*ssa.Alloc); !ok {
+			res = false
+		}
+	}
+	wrapSummary[fn] = res
+	return res
 }
